@@ -389,6 +389,14 @@ theorem failed_create_changes_nothing_fixed {env : Env} (hv : env.v.fixReturn = 
 
 /-! ## letter case -/
 
+/-- the guard of the case-twin theorems on a pull (finding N3): `PullHandler` passes the resolved name on in
+    full.  On the pinned tree it passes `DisplayShortest()`, which loses a differently-cased default host /
+    namespace, and the pull lands next to the model it was resolved to (`N3_witness`). -/
+def PullNameOk (env : Env) : Op → Prop
+  | .pull _ _ _ => env.v.fixPullName = true
+  | _ => True
+
+
 theorem readable_frame (env : Env) (st : Store) (op : Op) (ch : Choice) (a : Name)
     (h : Readable (step env st op ch).1 a) : Readable st a ∨ a ∈ targets env st op ch := by
   by_cases ha : a ∈ targets env st op ch
@@ -436,7 +444,7 @@ theorem readable_of_rewrite (env : Env) (st : Store) (ch : Choice) (n a : Name)
     namespace, model or tag differently — and that guard is itself preserved by every API operation for every
     iteration order of the map that `getExistingName` ranges over. -/
 theorem no_case_twins_partial (env : Env) (hv : env.v.fixResolve = false) (st : Store) (op : Op) (ch : Choice)
-    (hapi : ApiOp op) (hcov : Covers st ch) (h : NoMixed st) :
+    (hapi : ApiOp op) (hpn : PullNameOk env op) (hcov : Covers st ch) (h : NoMixed st) :
     NoMixed (step env st op ch).1 ∧ NoTwins (step env st op ch).1 := by
   have hres : ∀ ord n, resolveName env st ord n = getExistingName ord n := by
     intro ord n; simp [resolveName, hv]
@@ -465,13 +473,15 @@ theorem no_case_twins_partial (env : Env) (hv : env.v.fixResolve = false) (st : 
     | dashify n => exact h.mono (fun a ha => readable_of_rewrite env st ch n a (Or.inr ha))
     | litter j c => exact sub0 rfl
     | litterBlob k c => exact sub0 rfl
-    | pull n reg sv => exact sub n ch.ord1 hcov.1 (by simp [targets, hres])
+    | pull n reg sv =>
+      have : env.v.fixPullName = true := hpn
+      exact sub n ch.ord1 hcov.1 (by simp [targets, hres, pullTarget, this])
   exact ⟨key, key.noTwins⟩
 
 /-- histories of API operations whose iteration orders are orders of the actual manifest map -/
 def RunOk (env : Env) : Store → List (Op × Choice) → Prop
   | _, [] => True
-  | st, (op, ch) :: rest => ApiOp op ∧ Covers st ch ∧ RunOk env (step env st op ch).1 rest
+  | st, (op, ch) :: rest => ApiOp op ∧ PullNameOk env op ∧ Covers st ch ∧ RunOk env (step env st op ch).1 rest
 
 /-- from the empty store, API operations alone never produce two models that differ only by case (pinned) -/
 theorem reachable_no_twins (env : Env) (hv : env.v.fixResolve = false) (ops : List (Op × Choice)) (st : Store)
@@ -480,8 +490,8 @@ theorem reachable_no_twins (env : Env) (hv : env.v.fixResolve = false) (ops : Li
   | nil => exact h.noTwins
   | cons p rest ih =>
     obtain ⟨op, ch⟩ := p
-    obtain ⟨h1, h2, h3⟩ := hr
-    exact ih _ (no_case_twins_partial env hv st op ch h1 h2 h).1 h3
+    obtain ⟨h1, h1p, h2, h3⟩ := hr
+    exact ih _ (no_case_twins_partial env hv st op ch h1 h1p h2 h).1 h3
 
 theorem empty_NoMixed : NoMixed Store.empty := by
   have : ∀ a, ¬ Readable Store.empty a := by
@@ -496,7 +506,7 @@ theorem empty_NoMixed : NoMixed Store.empty := by
     the operation were both already there before it.  What remains: twins that exist already (legacy stores,
     manual copies) are not merged or removed by anything. -/
 theorem no_new_case_twins_fixed (env : Env) (hv : env.v.fixResolve = true) (st : Store) (op : Op) (ch : Choice)
-    (hapi : ApiOp op) (a b : Name) (ha : Readable (step env st op ch).1 a)
+    (hapi : ApiOp op) (hpn : PullNameOk env op) (a b : Name) (ha : Readable (step env st op ch).1 a)
     (hb : Readable (step env st op ch).1 b) (hab : a.equalFold b = true) (hne : a ≠ b) :
     Readable st a ∧ Readable st b := by
   have hres : ∀ ord n, resolveName env st ord n = getExistingNameFixed st.readableNames n := by
@@ -533,7 +543,9 @@ theorem no_new_case_twins_fixed (env : Env) (hv : env.v.fixResolve = true) (st :
   | create r => exact sub r.name (by simp [targets, hres])
   | copy s d => exact sub d (by simp [targets, hres])
   | delete n => exact sub n (by simp [targets, hres])
-  | pull n reg sv => exact sub n (by simp [targets, hres])
+  | pull n reg sv =>
+    have : env.v.fixPullName = true := hpn
+    exact sub n (by simp [targets, hres, pullTarget, this])
   | plant s d => exact absurd hapi (by simp [ApiOp])
   | corrupt n => exact sub0 (fun x hx => readable_of_rewrite env st ch n x (Or.inl hx))
   | dashify n => exact sub0 (fun x hx => readable_of_rewrite env st ch n x (Or.inr hx))
@@ -544,20 +556,21 @@ theorem no_new_case_twins_fixed (env : Env) (hv : env.v.fixResolve = true) (st :
 
 /-- hence `no_case_twins` itself is an invariant of every API operation, with no spelling guard -/
 theorem no_case_twins_fixed (env : Env) (hv : env.v.fixResolve = true) (st : Store) (op : Op) (ch : Choice)
-    (hapi : ApiOp op) (h : NoTwins st) : NoTwins (step env st op ch).1 := by
+    (hapi : ApiOp op) (hpn : PullNameOk env op) (h : NoTwins st) : NoTwins (step env st op ch).1 := by
   intro a b ha hb hab
   by_cases hne : a = b
   · exact hne
-  · obtain ⟨ha', hb'⟩ := no_new_case_twins_fixed env hv st op ch hapi a b ha hb hab hne
+  · obtain ⟨ha', hb'⟩ := no_new_case_twins_fixed env hv st op ch hapi hpn a b ha hb hab hne
     exact h a b ha' hb' hab
 
 theorem reachable_no_twins_fixed (env : Env) (hv : env.v.fixResolve = true) (ops : List (Op × Choice))
-    (hapi : ∀ p ∈ ops, ApiOp p.1) (st : Store) (h : NoTwins st) : NoTwins (run env st ops) := by
+    (hapi : ∀ p ∈ ops, ApiOp p.1 ∧ PullNameOk env p.1) (st : Store) (h : NoTwins st) :
+    NoTwins (run env st ops) := by
   induction ops generalizing st with
   | nil => exact h
   | cons p rest ih =>
     exact ih (fun q hq => hapi q (by simp [hq])) _
-      (no_case_twins_fixed env hv st p.1 p.2 (hapi p (by simp)) h)
+      (no_case_twins_fixed env hv st p.1 p.2 (hapi p (by simp)).1 (hapi p (by simp)).2 h)
 
 /-! ## every listed model can be shown -/
 
@@ -774,6 +787,24 @@ theorem auto_template_override_ok :
     let r := step wEnv st (.create ⟨nm "library" "a", none, [⟨.colon, "GC"⟩], some (autoT, true), none, [], []⟩) ch0
     r.2 = ["s"] ∧ incompleteB r.1 = false ∧ (r.1.blob "T").isSome = true ∧
     showAt wEnv r.1 (nm "library" "a") = "h200" := by decide +kernel
+
+/-- **N3, a pull lands next to the model it was resolved to.**  On the empty store `create LiBRARy/foo` writes
+    under `LiBRARy/` (nothing to canonicalise against).  `pull library/foo` is resolved to that model
+    (repaired `getExistingName`), but `PullHandler` passes `DisplayShortest()` = "foo:latest" to `PullModel`,
+    which parses it back as `library/foo`: two listed models that differ only by case.  With N3 repaired the pull
+    replaces `LiBRARy/foo`. -/
+theorem N3_witness :
+    let env : Env := { rEnv with v := { Variant.repaired with fixPullName := false } }
+    let m : Manifest := ⟨⟨.config, ⟨.colon, "C"⟩, 1⟩, [⟨.model, ⟨.colon, "G"⟩, 1⟩]⟩
+    let st := run env Store.empty [(.upload ⟨.colon, "G"⟩ gG, ch0), (mk (nm "LiBRARy" "foo") .colon, ch0)]
+    let pull : Op := .pull (nm "library" "foo") (some m) [("G", gG), ("C", [67])]
+    let r := step env st pull ch0
+    let r' := step rEnv st pull ch0
+    resolveName env st [] (nm "library" "foo") = nm "LiBRARy" "foo" ∧
+    ((r.1.readableAt (nm "LiBRARy" "foo")).isSome && (r.1.readableAt (nm "library" "foo")).isSome &&
+      (nm "LiBRARy" "foo").equalFold (nm "library" "foo")) = true ∧
+    (r'.1.readableAt (nm "library" "foo")).isSome = false ∧
+    ((r'.1.readableAt (nm "LiBRARy" "foo")).map (·.config.digest.hex)) = some "C" := by decide +kernel
 
 /-! ## the same histories with the repairs in (Lean-checked) -/
 
